@@ -190,6 +190,11 @@ func runC01(c *Ctx) {
 		h := IdealHistory(c, tw, p, nd, func() int { return 1 + c.T.Choose(200) }, c.T.Bool(1, 2))
 		var notes []string
 		p.Pkts, notes = mutateHistory(c, tw, p, h)
+		if p.Transport == "legacy" && c.T.Bool(1, 4) {
+			p.DupIn = 1 + c.T.Choose(2)
+			p.DupAfter = c.T.Choose(len(p.Pkts) + 1)
+			notes = append(notes, fmt.Sprintf("second IN request (%d, after %d)", p.DupIn, p.DupAfter))
+		}
 		if c.T.Bool(1, 8) {
 			p.CloseAfter = c.T.Choose(len(p.Pkts) + 1)
 			p.CloseReset = c.T.Bool(1, 2)
